@@ -16,8 +16,9 @@ thread i running a program of operations {callLater, schedule(user task), synchr
 time-out of thread `tid` (`Event.wait(CYCLE_MAXIMUM)` / `select(..., timeout)` returning with nothing).
 
 Not modelled (C06's territory): timers and fd waits of ordinary tasks, priorities < 1, `quit`, `CallBlocking`,
-`callLater` calls made by cooperative code.  A user task may call `schedule(other user task)` from inside its slice
-(the direct branch of `schedule`, taken on the scheduler thread).
+call-later functions that themselves hand over further calls.  A user task may, from inside its slice, call
+`schedule(other user task)` (the direct branch of `schedule`, taken on the scheduler thread) and
+`scheduler.callLater(f)` (hand-over from cooperative code, the common use in POX).
 Core Lean only; structural recursion only. -/
 namespace Pox.Handoff
 
@@ -36,6 +37,7 @@ inductive UItem
   | yieldF
   | yield0
   | sched (v : TaskId)
+  | callLater            -- `scheduler.callLater(f)` from inside the slice
   deriving DecidableEq, Repr
 
 /-- the task heap: what kind of task object lives at an id, with the part of its generator state that matters -/
@@ -85,6 +87,12 @@ inductive SPc
   | cltCall (c : TaskId) (e : Call) -- `e[0](*e[1], **e[2])`
   | usContains (t v : TaskId)       -- user task t calls `schedule(v)`: `if task in self._ready` (direct branch)
   | usFs (t v : TaskId) (p : FsPc)  -- … `self.fast_schedule(task, first)` on the scheduler thread
+  | crashed                         -- an exception left `Scheduler.run` (inline hub: an assertion inside `_select`)
+  -- user task t calls `Scheduler.callLater` from inside its slice:
+  | ucLock (t : TaskId) | ucIsNone (t : TaskId) | ucCreate (t : TaskId)
+  | ucContains (t c : TaskId)       -- `self._callLaterTask.start()` → `schedule(clt)`, direct branch: `if task in self._ready`
+  | ucFs (t c : TaskId) (p : FsPc)  -- … `fast_schedule(clt)`
+  | ucUnlock (t : TaskId) | ucAppend (t : TaskId) | ucPing (t : TaskId)
   deriving DecidableEq, Repr
 
 inductive HPc
@@ -142,6 +150,7 @@ structure State where
   submitted : List Call := []          -- ghost: calls in hand-over order (the `_calls.append`)
   executed : List (Call × Tid) := []   -- ghost/observable: executed calls with the executing thread
   slices : List TaskId := []           -- observable: user-task slices in execution order
+  snsub : Nat := 0                     -- calls handed over by the scheduler thread itself (cooperative code)
   s : SPc := .runLen
   h : HPc := .off
   fs : List FThread := []
@@ -248,6 +257,7 @@ def afterIdle (s : State) : State := { s with s := .cycPop }
 def userNext (s : State) (t : TaskId) : State :=
   match s.tasks[t]? with
   | some (.user (.sched v :: p)) => { setTask s t (.user p) with s := .usContains t v }
+  | some (.user (.callLater :: p)) => { setTask s t (.user p) with s := .ucLock t }
   | some (.user (.yield0 :: p)) => { setTask s t (.user p) with s := .cycAppend t }
   | some (.user (.yieldF :: p)) => { setTask s t (.user p) with s := .runLen }
   | _ => { s with s := .runLen }
@@ -260,7 +270,7 @@ def stepS (s : State) : Option State :=
   | .idleWait => if s.event then some { s with s := .idleClear } else none
   | .idleClear => some { s with event := false, s := .cycPop }
   | .hub p => hubK s p (fun s' p' => { s' with s := .hub p' }) afterIdle
-      (fun s' => { s' with s := .runLen })                  -- (crash: not reachable; an exception would leave `run`)
+      (fun s' => { s' with s := .crashed })                 -- the exception leaves `run`: the scheduler thread is gone
   | .cycPop =>
     match s.ready with
     | [] => some { s with s := .runLen }                    -- IndexError → `return False`
@@ -272,6 +282,26 @@ def stepS (s : State) : Option State :=
   | .usContains t v =>
     if v ∈ s.ready then some (userNext s t)                -- "scheduled multiple times": `return False`
     else some { s with s := .usFs t v .assert }
+  | .crashed => none
+  | .ucLock t => if s.lock then none else some { s with lock := true, s := .ucIsNone t }
+  | .ucIsNone t =>
+    match s.cltTask with
+    | none => some { s with s := .ucCreate t }
+    | some _ => some { s with s := .ucUnlock t }
+  | .ucCreate t =>
+    let (s', c) := alloc s (.clt false)
+    some { s' with cltTask := some c, s := .ucContains t c }
+  | .ucContains t c =>
+    if c ∈ s.ready then some { s with s := .ucUnlock t }
+    else some { s with s := .ucFs t c .assert }
+  | .ucFs t c p =>
+    some (fsK s c false p (fun s' p' => { s' with s := .ucFs t c p' }) (fun s' => { s' with s := .ucUnlock t })
+      (fun s' => { s' with lock := false, s := .runLen }))  -- the exception leaves the `with` block and the task
+  | .ucUnlock t => some { s with lock := false, s := .ucAppend t }
+  | .ucAppend t =>
+    let e : Call := ⟨0, s.snsub⟩
+    some { s with calls := s.calls ++ [e], submitted := s.submitted ++ [e], snsub := s.snsub + 1, s := .ucPing t }
+  | .ucPing t => some (userNext { s with cltPipe := s.cltPipe + 1 } t)
   | .usFs t v p =>
     some (fsK s v false p (fun s' p' => { s' with s := .usFs t v p' }) (fun s' => userNext s' t)
       (fun s' => { s' with s := .runLen }))                 -- AssertionError inside the task: de-scheduled
@@ -327,6 +357,15 @@ def siteS (s : State) : Site :=
   | .cltCall _ _ => .clt_call
   | .usContains _ _ => .sch_contains
   | .usFs _ _ p => fsSite s false p
+  | .crashed => .run_len
+  | .ucLock _ => .cl_lock
+  | .ucIsNone _ => .cl_isNone
+  | .ucCreate _ => .cl_create
+  | .ucContains _ _ => .sch_contains
+  | .ucFs _ _ p => fsSite s false p
+  | .ucUnlock _ => .cl_unlock
+  | .ucAppend _ => .clt_append
+  | .ucPing _ => .clt_ping
 
 /-! ## the hub thread (threaded mode) -/
 
